@@ -212,7 +212,7 @@ def guard(fn):
         return ("err", "ErrConfig")
     except configparser.Error:
         return ("err", "ErrParse")
-    except (ValueError, RecursionError):
+    except (ValueError, RecursionError, IndexError):   # IndexError: str.format on an all-digit variable name
         return ("err", "ErrValue")
     except Exception as e:  # noqa: BLE001 - reported as outside the model
         raise Outside(f"{type(e).__name__}: {e}") from None
@@ -512,7 +512,7 @@ def std_queries(rng, rich=True):
         for k in KEYS:
             qs.append(dict(q="get", key=k, value=None, section=s, default=None))
     qs.append(dict(q="get", key="k1", value=None, section=None, default=None))
-    qs.append(dict(q="get", key=rng.choice(KEYS), value=None, section=rng.choice(SECS + ["nosuch", "k1"]), default="dflt"))
+    qs.append(dict(q="get", key=rng.choice(KEYS), value=None, section=rng.choice(SECS * 3 + ["nosuch"] * 2 + ["k1"]), default="dflt"))
     qs.append(dict(q="exists", key=rng.choice(KEYS), section=rng.choice(SECS + [None, "nosuch", "k1"])))
     if rich:
         qs.append(dict(q="get", key=rng.choice(KEYS), value="override", section=rng.choice(SECS + [None]), default=rng.choice([None, "d"])))
@@ -665,14 +665,17 @@ def run(ctx):
         add(dict(name=c["name"], ops=[dict(o) for o in c["ops"]], queries=[dict(q) for q in CORPUS_QUERIES]), "corpus")
 
     # ---- A. bounded-exhaustive sequences (canonical up to renaming)
+    scale = float(os.environ.get("VERIF_C19_SCALE", "1"))      # development knob (mutant runs); 1 in normal use
     full_len = 3 if ctx.quick() else 4
+    if scale < 1:
+        full_len = 2
     n_exh = 0
     for length in range(0, full_len + 1):
         for seq in canon_sequences(length):
             add(seq_case(seq, rng.randrange(0, 4), rng), f"exhaustive{length}")
             n_exh += 1
     nxt = canon_sequences(full_len + 1) if ctx.quick() else None
-    n_sample = 1500 if ctx.quick() else 6000
+    n_sample = int(scale * (700 if ctx.quick() else 6000))
     if nxt is not None:
         for seq in rng.sample(nxt, min(n_sample, len(nxt))):
             add(seq_case(seq, rng.randrange(0, 4), rng), f"sampled{full_len + 1}")
@@ -685,7 +688,7 @@ def run(ctx):
             add(seq_case(seq + (ext,), rng.randrange(0, 4), rng), "sampled5")
 
     # ---- B. random sequences up to length 30 over all operations
-    n_rand = 700 if ctx.quick() else 6000
+    n_rand = int(scale * (500 if ctx.quick() else 6000))
     for i in range(n_rand):
         n = rng.choice([1, 2, 3, 4, 5, 6, 8, 10, 12, 16, 20, 30])
         ops = [gen_op(rng, ctx.work, counter) for _ in range(n)]
@@ -693,8 +696,17 @@ def run(ctx):
 
     ctx.log(f"cases: {len(cases)} (exhaustive {n_exh}), outside the model: {len(outside)}")
     terms = [t_case(c) for c in cases]
-    vs = ctx.coq_cases(emit.shard_terms("check_case", terms, 120 if ctx.quick() else 250), REQ)
-    flat = emit.flatten_verdicts(vs, len(cases))
+    # spread the (heavier) long random cases evenly over the shards
+    size = 120 if ctx.quick() else 250
+    nsh = max(1, -(-len(terms) // size))
+    order = sorted(range(len(terms)), key=lambda i: (i % nsh, i))
+    vs = ctx.coq_cases(emit.shard_terms("check_case", [terms[i] for i in order], size), REQ)
+    flat_o = emit.flatten_verdicts(vs, len(cases))
+    flat = None
+    if flat_o is not None:
+        flat = [0] * len(cases)
+        for j, i in enumerate(order):
+            flat[i] = flat_o[j]
 
     # ---------------------------------------------------------------- decide
     if flat is None:
